@@ -7,9 +7,9 @@ VALUE to the generic `BytesMut::put<T: Buf>(src: T)`.  What `put` does to the bu
 a reference is stated with a prophetic trait-level relation `fin_adv(n)` ("whatever this value
 mutably borrows ends up advanced by exactly n bytes"): `&mut T` defines it through `final`, Take
 passes it to its inner buffer, owning buffers have nothing to say.  The contract of
-`BytesMut::{with_capacity, put, freeze}` is ASSUMED here (opaque type); its content part is proved
-by V unit bufmut_targets (the verbatim loop, all lengths) over Kani's extend_from_slice contract, its
-"drains the source exactly" part by V unit bufmut_default for the same loop shape.
+`BytesMut::{with_capacity, put, freeze}` is imported here (opaque type): `put` - contents AND
+"drains the source exactly" - is proved in V unit bufmut_targets for the verbatim loop, all lengths
+(over Kani's extend_from_slice contract); with_capacity / freeze are Kani obligations.
 
 The blanket impl is in scope here (the bodies need `&mut T: Buf`), so the trait's own default
 bodies are imported contracts as in unit buf_fwd."""
@@ -19,7 +19,7 @@ import _prophecy
 
 U = Unit("buf_copy", props=["C09", "C12"])
 U.assumptions = [
-    "assumed contract (unit buf_copy): BytesMut::with_capacity(n)@ == [], BytesMut::put(src) appends src.seq() and drains src exactly (src.fin_adv(|src.seq()|)), freeze keeps the contents - the content part of put is proved in unit bufmut_targets, with_capacity/freeze by Kani (kx_m_constructors, kx_mvec_freeze*, kx_marc_freeze); the draining clause is assumed (same loop: every advance is by the chunk just copied)",
+    "contract of the opaque BytesMut in unit buf_copy: with_capacity(n)@ == [], freeze keeps the contents (Kani: kx_m_constructors, kx_mvec_freeze*, kx_marc_freeze, 8-byte allocations); put(src) appends src.seq() and drains src exactly - PROVED for the verbatim loop in unit bufmut_targets (over the extend_from_slice contract, Kani kx_m_extend_from_slice)",
     "imported contracts of Buf's cursor methods for Take/Chain/&mut T in unit buf_copy: proved in units buf_core and buf_fwd",
 ]
 
